@@ -17,7 +17,7 @@ LEVEL = "exploration"
 
 
 def int_configs(tier):
-    widths = list(range(1, 73)) + [80, 96, 100, 127, 128, 129, 200, 256]
+    widths = list(range(1, 73)) + [80, 96, 100, 127, 128, 129, 200, 256, 4096, 14296, 16384, 65536 - 128]
     out = []
     for w in widths:
         for enc in ("unsigned", "signed", "twosComplement"):
@@ -52,6 +52,10 @@ def ptype_for(cfg, i):
 def int_patterns(w, full_upto):
     if w <= full_upto:
         return range(1 << w)
+    if w > 300:
+        # very wide fields (up to 8 kB): values far beyond anything that is ever converted to text (more than 4300 decimal digits)
+        ones = (1 << w) - 1
+        return sorted({0, 1, ones, 1 << (w - 1), ones ^ 1, (1 << (w - 1)) - 1, int(("10" * w)[:w], 2), int(("0110" * w)[:w], 2), 1 << (w // 2), ones >> 3})
     ones = (1 << w) - 1
     s = {0, 1, ones, 1 << (w - 1), (1 << (w - 1)) + 1, (1 << (w - 1)) - 1, ones - 1}
     for b in range(w):
@@ -212,7 +216,7 @@ def cold_probe():
     import json
     import warnings
     warnings.simplefilter("ignore")
-    cfgs = int_configs("quick") + float_configs()
+    cfgs = [c for c in int_configs("quick") if c[1] <= 256] + float_configs()
     bad, n_ok = [], 0
     for offset in (0, 3, 5):
         for ch in chunked(cfgs, 12):
@@ -285,7 +289,7 @@ def run(ctx):
     coverage = {
         "programs": tally.programs,
         "exhaustive": True,
-        "bound": ("integers: widths 1..72, 80, 96, 100, 127, 128, 129, 200, 256 x {unsigned, signed, twosComplement} x {MSB first, LSB first for whole-byte widths} x "
+        "bound": ("integers: widths 1..72, 80, 96, 100, 127, 128, 129, 200, 256, 4096, 14296, 16384, 65408 x {unsigned, signed, twosComplement} x {MSB first, LSB first for whole-byte widths} x "
                   f"bit offsets 0..7 x (ALL 2^w patterns for w <= {12 if ctx.quick else 16}, else boundary/walking/alternating/index family) x "
                   "neighbour fill {0,1}; floats: binary16 ALL 65536 patterns, binary32/64 every exponent x mantissa family + walking bits + "
                   "specials, MIL-STD-1750A all 256 exponents x ~60 mantissas, both byte orders, also under the deprecated spellings 'MIL-1750A' / 'IEEE-754', "
